@@ -54,12 +54,13 @@ func (st *stack) batchesTerm() string {
 // (no deadline besides a 5 s safety cap) returned nil.
 func (st *stack) finish(finalDrain bool) (closed []int, final, fdrain bool) {
 	fdrain = true
-	if finalDrain && !st.stopped.Load() {
+	if finalDrain {
+		// also after Server.Stop: the executor's terminal drain must still complete
 		fdrain = st.drainCap(5 * time.Second)
 	}
 	final = true
-	handled := st.waitHandled(10 * time.Second)
-	if finalDrain && !st.stopped.Load() && !fdrain && handled {
+	handled := st.waitHandled(3 * time.Second)
+	if finalDrain && !fdrain && handled {
 		// everything is handled now: the drain must be able to finish
 		fdrain = st.drainCap(3 * time.Second)
 	}
